@@ -19,7 +19,49 @@ pub fn run(ctx: &mut Ctx) {
     if part.is_empty() || part == "small" { small(ctx); }
     if part.is_empty() || part == "units" { units(ctx); }
     if part.is_empty() || part == "huge" { huge(ctx); }
-    if part.is_empty() || part == "fit" { fit(ctx); }
+    if part.is_empty() || part == "fit" { fit(ctx); regular(ctx); }
+}
+
+// Perfectly regular vectors: every block holds the same number of runs and covers a power-of-two number of positions,
+// so that block boundaries (positions and ranks) fall exactly on the thresholds of the sampled indexes; queries at every
+// block boundary -1/0/+1 (all arguments when the vector is small).
+fn regular(ctx: &mut Ctx) {
+    let opts = QOpts { iter_limit: 3000, ..QOpts::default() };
+    // (gap, len): one code unit each when < 8 / <= 8, two units for the wider ones.
+    let shapes: [(usize, usize); 8] = [(4, 4), (1, 7), (7, 1), (2, 2), (1, 1), (8, 8), (32, 32), (3, 5)];
+    let blocks_list: Vec<usize> = if ctx.quick() { vec![1, 8, 9, 16, 17, 64, 100] } else { vec![1, 2, 7, 8, 9, 10, 16, 17, 31, 32, 33, 64, 65, 100, 256, 1000] };
+    let mut index = 0u64;
+    for &(gap, len) in shapes.iter() {
+        for &blocks in blocks_list.iter() {
+            for lead in [0usize, 1] {
+                index += 1;
+                if !ctx.mine(index) { continue; }
+                if !ctx.begin_case() { continue; }
+                let mut rng = ctx.rng(0xC3_E000 + index);
+                let units_per_run = (if gap < 8 { 1 } else { 2 }) + (if len <= 8 { 1 } else { 2 });
+                let runs_per_block = 64 / units_per_run;
+                let mut runs: Vec<(usize, usize)> = Vec::new();
+                // `lead` = 1: the very first run starts at 0 (its gap is 0), everything else keeps the period.
+                let mut pos = if lead == 1 { 0 } else { gap };
+                for _ in 0..blocks * runs_per_block { runs.push((pos, len)); pos += len + gap; }
+                let n = pos - gap + (index as usize % 3);
+                let m = RunModel::new(n, &runs);
+                let (block_starts, _, _) = simulate_blocks(&m.runs);
+                let mut args = run_args(&m, &block_starts, &mut rng, 120);
+                for &p in block_starts.iter().take(400) {
+                    for d in 0..2usize { args.idx.push(p.saturating_sub(d)); args.idx.push(p + d); }
+                    let r1 = m.rank(p);
+                    let r0 = p - r1;
+                    for d in 0..2usize { args.ranks.push(r1.saturating_sub(d)); args.ranks.push(r1 + d); args.ranks.push(r0.saturating_sub(d)); args.ranks.push(r0 + d); }
+                }
+                let args = args.dedup();
+                let rv = build(n, &m.runs, Decomp::Maximal, &mut rng);
+                check_rl(ctx, "regular", rv, &m, &args, &opts, 40000);
+                ctx.case(hash64(&[8, gap as u64, len as u64, blocks as u64, lead as u64]), true);
+                ctx.sample(|| format!("regular: {} blocks of {} runs (gap {}, len {}), first run at {}: n={} (block period {} positions, {} set bits)", blocks, runs_per_block, gap, len, if lead == 1 { 0 } else { gap }, n, runs_per_block * (gap + len), runs_per_block * len));
+            }
+        }
+    }
 }
 
 fn units_lo(u: usize) -> usize { if u <= 1 { 0 } else { 1usize << (3 * (u - 1)) } }
